@@ -123,6 +123,7 @@ def gen_consts():
     if p.returncode != 0:
         raise CheckError("consts translator failed: " + p.stderr[-2000:])
     path = os.path.join(COQ, "Gen", "Consts.v")
+    os.makedirs(os.path.dirname(path), exist_ok=True)        # Gen/ only holds generated, untracked files
     old = open(path).read() if os.path.exists(path) else None
     if old != p.stdout:
         with open(path, "w") as fh:
